@@ -192,6 +192,9 @@ class Builder(object):
             ]
         )
 
+        # A stop requested while the start up pipeline runs
+        download_pipeline.skippable = True
+
         download_stop_pipeline = Pipeline(
             AppSource(app_session),
             [
